@@ -571,16 +571,16 @@ where
     type Item = &'item T;
 
     fn next(&mut self) -> Option<Self::Item> {
-        if let item @ Some(_) = self.current_section.next() {
-            return item;
-        }
+        // Iteratively skip empty sections. Recursion would exhaust the stack
+        // for many consecutive empty sections, e.g. arrays of length 0.
 
-        if let Some(next_section) = self.subsequent_sections.next() {
-            self.current_section = next_section.iter();
-            return self.next();
-        }
+        loop {
+            if let item @ Some(_) = self.current_section.next() {
+                return item;
+            }
 
-        None
+            self.current_section = self.subsequent_sections.next()?.iter();
+        }
     }
 
     fn size_hint(&self) -> (usize, Option<usize>) {
